@@ -359,6 +359,7 @@ struct Ctl11 {
     Framed f = model_parse(pkt.data(), (int)pkt.size(), false);
     if (!f.ok) return;   // (packet validity is C02's subject)
     unsigned char toc = pkt[0];
+    if (run.verbose) printf("packet %ld: ret %d toc %02x mode %d ch %d frames %d sel %d force_ch %d\n", (long)frames, ret, toc, toc_mode(toc), toc_channels(toc), f.nframes, sel, m_force_ch);
     if ((long)toc_frame48(toc) * f.nframes * L.fs != (long)sel * 48000) REPORT(run, prop, "duration_not_honoured", "toc %02x frames %d vs %d samples", toc, f.nframes, sel);
     bool payload = false; for (int i = 0; i < f.nframes; i++) if (f.len[i] > 1) payload = true;
     run.sg(mix64((uint64_t)(toc >> 2), (uint64_t)fi));
